@@ -7,7 +7,7 @@ import RxModel.Ops.Multi
   `/repo/src` by `rs2lean` is, method by method and for every state and argument, the machine of the
   hand-written model that all property theorems are about:
 
-      (Gen.X.next g v).map (fun r => (abs r.1, r.2)) = some (St1.onNext (abs g) v)
+      (Gen.X.next g v).map (fun r => (abs r.1, r.2)) = some (Rs.lift (St1.onNext (abs g) v))
 
   `abs : Gen.X → St1` reads a Rust state as a model state.  The left side being `some _` also says that
   the Rust method cannot panic (no `unwrap()` of `None`, no `usize` underflow, loops terminate).
@@ -20,7 +20,7 @@ macro "rs_simp" "[" ts:Lean.Parser.Tactic.simpLemma,* "]" : tactic =>
   `(tactic| simp [Rs.lt, Rs.le, Rs.eq, Rs.emitNext, Rs.emitError, Rs.emitComplete, Rs.isFinished, Rs.unwrap,
       Rs.sub, Rs.ToVal.toVal, Rs.dflt, Rs.Dflt.dflt, Rs.len, Rs.isEmpty, Rs.contains, Rs.pushBack, Rs.pushFront,
       Rs.extend, Rs.IntoList.toList, Rs.setInsert, Rs.popFront, Rs.popBack, Rs.isSome, Rs.front, Rs.back,
-      Rs.unwrapOr, Rs.panic, $ts,*])
+      Rs.unwrapOr, Rs.panic, Rs.lift, Rs.emitCall, Rs.emitUnsub, $ts,*])
 
 macro "rs_tie" "[" ts:Lean.Parser.Tactic.simpLemma,* "]" : tactic =>
   `(tactic| (rs_simp [$ts,*] <;> (repeat' split) <;> simp_all))
